@@ -255,13 +255,26 @@ def progISet (cell : Nat) (name : String) (elems : List (Int × Bool)) : List St
     Field objects (cell, does the option accept the value) in declaration order.  An option validates on a scratch
     structure (`check`); only its error - named by the option's `_name` AT THAT MOMENT - can be observed. -/
 
-/-- `AllOf.__set__`: every option must accept; then the value is stored under the wrapper's own name -/
+/-- what a wrapper does once an option (cell `c`) is to store the value (`AnyOf`; in tree b6495fe also `AllOf` / `OneOf`): `option.__set__(instance, value)` stores on the real instance UNDER THE OPTION's `_name`, the wrapper
+    reads it back under its own name (`instance.__dict__[self._name]`) and stores that -/
+def storeThrough (own : Nm) (v : Int) (c : Nat) : List Step :=
+  [.store (.cell c) v true, .move own own, .load own]
+
+/-- `AllOf.__set__`: every option must accept (scratch validation); then the value is stored under the wrapper's own name -/
 def progAllOfFrom (own : Nm) : List (Nat × Bool) → List Step
   | [] => []
   | (c, ok) :: rest => .write c own :: .check (.cell c) ok :: progAllOfFrom own rest
 
 def progAllOf (own : Nm) (v : Int) (opts : List (Nat × Bool)) : List Step :=
   progAllOfFrom own opts ++ [.store own v true, .load own]
+
+/-- the `AllOf.__set__` of tree b6495fe (fix 95931f6, replaced by 89fd84a): the FIRST option stores the value on the real
+    instance.  Kept as a model variant: the harness selects it when the translator finds such a call in the site function. -/
+def progAllOfThrough (own : Nm) (v : Int) (opts : List (Nat × Bool)) : List Step :=
+  progAllOfFrom own opts ++
+    (match opts with
+     | [] => [.store own v true, .load own]
+     | (c, _) :: _ => storeThrough own v c)
 
 /-- `AnyOf.__set__`: options are tried in order (errors swallowed); the first that accepts then stores the value on the
     real instance UNDER ITS OWN `_name` (`matched.__set__(instance, value)`), and the wrapper reads it back under the
@@ -270,7 +283,7 @@ def progAnyOf (own : Nm) (v : Int) : List (Nat × Bool) → List Step
   | [] => [.check own false]
   | (c, ok) :: rest =>
     .write c own :: .check (.cell c) true ::
-      (if ok then [.store (.cell c) v true, .move own own, .load own] else progAnyOf own v rest)
+      (if ok then storeThrough own v c else progAnyOf own v rest)
 
 /-- `OneOf.__set__`: every option is tried (errors swallowed); exactly one must accept -/
 def progOneOfFrom (own : Nm) : List (Nat × Bool) → List Step
@@ -281,19 +294,51 @@ def progOneOf (own : Nm) (v : Int) (opts : List (Nat × Bool)) : List Step :=
   progOneOfFrom own opts ++
     (if (opts.filter fun o => o.2).length == 1 then [.store own v true, .load own] else [.check own false])
 
+/-- the `OneOf.__set__` of tree b6495fe: the one option that accepted stores the value (model variant, see progAllOfThrough) -/
+def progOneOfThrough (own : Nm) (v : Int) (opts : List (Nat × Bool)) : List Step :=
+  progOneOfFrom own opts ++
+    (match opts.filter fun o => o.2 with
+     | [(c, _)] => storeThrough own v c
+     | _ => [.check own false])
+
 /-- `NotField.__set__`: no option may accept -/
 def progNotField (own : Nm) (v : Int) : List (Nat × Bool) → List Step
   | [] => [.store own v true, .load own]
   | (c, ok) :: rest =>
     .write c own :: .check (.cell c) true :: (if ok then [.check own false] else progNotField own v rest)
 
+inductive WKind where
+  | allOf | anyOf | oneOf | notField
+  /-- variants in which the accepting option stores the value on the real instance (tree b6495fe) -/
+  | allOfThrough | oneOfThrough
+  deriving DecidableEq, Repr
+
+/-- the program of a multi-field wrapper whose own name is `own` -/
+def wrapProg (kind : WKind) (own : Nm) (v : Int) (opts : List (Nat × Bool)) : List Step :=
+  match kind with
+  | .allOf => progAllOf own v opts
+  | .anyOf => progAnyOf own v opts
+  | .oneOf => progOneOf own v opts
+  | .notField => progNotField own v opts
+  | .allOfThrough => progAllOfThrough own v opts
+  | .oneOfThrough => progOneOfThrough own v opts
+
+/-- `Array[W[...]]` / `Deque[W[...]]` (extract_field_value) whose single items object is a multi-field wrapper `W` (cell
+    `cW`): the wrapper's OWN name is the scratch cell of the outer loop; per element the outer writes `name_i` into it,
+    calls `W.__set__(temp_st, v)` - which renames its options after the CURRENT content of `cW`, reports errors under it and
+    stores the value under it - and reads the element back under it (the wrapper program's final `load own`). -/
+def progNestFrom (cW : Nat) (name : String) (kind : WKind) : Nat → List (Int × List (Nat × Bool)) → List Step
+  | _, [] => []
+  | i, (v, opts) :: rest =>
+    .write cW (.const (elemName name i)) :: .check (.cell cW) true ::
+      (wrapProg kind (.cell cW) v opts ++ progNestFrom cW name kind (i + 1) rest)
+
+def progNest (cW : Nat) (name : String) (kind : WKind) (elems : List (Int × List (Nat × Bool))) : List Step :=
+  .write cW (.const name) :: .newTemp :: progNestFrom cW name kind 0 elems
+
 end Typedpy.Sched
 
 namespace Typedpy.Sched
-
-inductive WKind where
-  | allOf | anyOf | oneOf | notField
-  deriving DecidableEq, Repr
 
 /-- one validation call of a collection / multi-field wrapper field, as the harness describes it on the wire -/
 inductive Call where
@@ -303,6 +348,9 @@ inductive Call where
   | map (kc vc : Nat) (name : String) (entries : List ((Int × Bool) × (Int × Bool)))
   | pos (base : Nat) (name : String) (n : Nat) (elems : List (Int × Bool))
   | wrap (kind : WKind) (name : String) (v : Int) (opts : List (Nat × Bool))
+  /-- `Array[W[..]]` / `Deque[W[..]]` with a multi-field wrapper as the single items object (cell `cW`); per element the
+      value and, per option, (cell, accepted) -/
+  | nest (cW : Nat) (name : String) (kind : WKind) (elems : List (Int × List (Nat × Bool)))
   deriving Repr
 
 def Call.prog : Call → List Step
@@ -315,6 +363,9 @@ def Call.prog : Call → List Step
   | .wrap .anyOf n v os => progAnyOf (.const n) v os
   | .wrap .oneOf n v os => progOneOf (.const n) v os
   | .wrap .notField n v os => progNotField (.const n) v os
+  | .wrap .allOfThrough n v os => progAllOfThrough (.const n) v os
+  | .wrap .oneOfThrough n v os => progOneOfThrough (.const n) v os
+  | .nest cW n k es => progNest cW n k es
 
 /-- decidable conflict freedom: no program writes a cell that another program reads -/
 def disjointB (ws rs : List Nat) : Bool := ws.all fun c => !rs.contains c
@@ -331,6 +382,21 @@ def Call.usesCell (c : Nat) : Call → Bool
   | .map kc vc _ _ => c == kc || c == vc
   | .pos base _ n _ => decide (base ≤ c) && decide (c < base + n)
   | .wrap _ _ _ opts => (opts.map fun o => o.1).contains c
+  | .nest cW _ _ elems => c == cW || elems.any fun e => (e.2.map fun o => o.1).contains c
+
+/-! ### same-value writes (threads on the SAME field write the same name) -/
+
+/-- every read of a cell in the program comes after a write of that cell by the same program (`w`: cells written so far) -/
+def readsAfterOwnWrite : List Nat → List Step → Bool
+  | _, [] => true
+  | w, s :: rest => s.readCells.all (fun c => w.contains c) && readsAfterOwnWrite (s.writeCells ++ w) rest
+
+/-- every write of the program stores the constant `k c` into cell `c` -/
+def uniformB (k : Nat → String) (p : List Step) : Bool :=
+  p.all fun s => match s with
+    | .write c n => n == .const (k c)
+    | _ => true
+
 
 /-! ### which Field objects are shared: follow the generated shared-write table
 
